@@ -880,6 +880,47 @@ func (w *world) Exec(r *hx.Run, op []string) string {
 		}
 		w.checkSetsInForce(r, "crash-restart", got)
 		return "crashed ok " + got.String()
+	case "fast":
+		// fast <ts0> <lastcfg> <hash>...: honest empty blocks at the next heights, signed by the set in force, added
+		// one after the other without observing in between (long chains)
+		if len(op) < 4 || w.main.store == nil {
+			return "bad-op"
+		}
+		ts0, _ := strconv.ParseUint(op[1], 10, 32)
+		lc, _ := strconv.ParseUint(op[2], 10, 32)
+		for i, hs := range op[3:] {
+			for _, l := range []*ledgerInst{w.main, w.twin} {
+				if l == nil || l.store == nil {
+					continue
+				}
+				h := l.store.GetCurrentBlockHeight() + 1
+				prev := l.store.GetCurrentBlockHash()
+				_, pb := l.store.VerifPeerInfo()
+				b := &blockSpec{name: fmt.Sprintf("f%d", h), height: h, prev: prev, ts: uint32(ts0) + uint32(i),
+					root: l.store.GetBlockRootWithPreBlockHashes(h, []common.Uint256{prev}), lastCfg: uint32(lc), hash: hs}
+				b.bks = parseSet(peersToken(pb))
+				for _, k := range b.bks {
+					b.sigs = append(b.sigs, fmt.Sprintf("s%d", k))
+				}
+				blk, err := b.materialize(true)
+				if err != nil {
+					return fmt.Sprintf("bad-op:%v@%d", err, i)
+				}
+				if l == w.main {
+					w.blocks[b.name] = b
+				}
+				if err := l.addBlock(blk, false); err != nil {
+					return fmt.Sprintf("%s@%d", errClass(err), i)
+				}
+			}
+		}
+		o := w.main.observe()
+		if w.twin != nil && w.twin.store != nil {
+			if a, b := o.durable(), w.twin.observe().durable(); a != b {
+				r.Viol("C12:state-diverges-after-recovery", "after a crash and restart the ledger and the uncrashed twin diverge on a run of blocks: "+diffFields(a, b))
+			}
+		}
+		return "ok " + o.String()
 	case "get":
 		if len(op) != 2 || w.blocks[op[1]] == nil || w.main.store == nil {
 			return "bad-op"
